@@ -143,6 +143,10 @@ class World:
     def get(self, tag):
         o = self.objs.get(tag)
         if o is None and tag in self.persist:
+            E = self.E[self.persist[tag]]
+            for o2 in self.db._get_cache().objects:        # already in the identity map (loaded through a relationship)?
+                if o2.__class__ is E and o2._vals_.get(E.tag) == tag:
+                    self.objs[tag] = o2; return o2
             if self.before_query is not None: self.before_query()    # the query below would auto-flush: make it a tracked flush point
             o = self.E[self.persist[tag]].get(tag=tag)
             if o is not None: self.objs[tag] = o
@@ -249,9 +253,9 @@ class World:
         dst.execute('PRAGMA foreign_keys = ON')
         return dst
 
-    def blocking_rows_are_deleted_optionals(self, p):
-        """after the strict backend refused `DELETE p`: are all rows that still reference p objects that are themselves
-        marked_to_delete (later in the queue) and refer to p through a non-cascading (Optional) attribute?"""
+    def blocking_rows_are_deleted_too(self, p):
+        """after the strict backend refused `DELETE p`: is every row that still references p (entity tables only) an object
+        that the same flush deletes as well (marked_to_delete, later in the queue)?"""
         cache = self.db._get_cache()
         con = cache.connection
         found = 0
@@ -261,10 +265,10 @@ class World:
                 cur = sqlite3.Cursor(con)
                 cur.execute('SELECT "%s" FROM "%s" WHERE "%s" = ?' % (E2._pk_columns_[0], E2._table_, attr.columns[0]), [p._pkval_])
                 for (pk2,) in cur.fetchall():
+                    if E2 is p.__class__ and pk2 == p._pkval_: continue      # a row referencing itself does not block its own DELETE
                     found += 1
                     o2 = cache.indexes[E2._pk_attrs_].get(pk2)
-                    if o2 is None or o2._status_ != 'marked_to_delete' or attr.reverse.cascade_delete or not isinstance(attr, Optional):
-                        return False
+                    if o2 is None or o2._status_ != 'marked_to_delete': return False
         return found > 0
 
 # ---------------------------------------------------------------- the engine's own orderability analysis
@@ -368,8 +372,12 @@ class Run:
                 else: tgt = rng.choice(cands)
                 if tgt is None and req: continue
                 return ['set', t, name, tgt]
-            if r < 0.66: return ['touch', t, rng.randrange(100)]
-            if r < 0.80: return ['del', t]
+            if r < 0.64: return ['touch', t, rng.randrange(100)]
+            if r < 0.68:
+                # reading an attribute makes it part of the optimistic check of a later UPDATE
+                if not w.ref_attrs[e]: continue
+                return ['read', t, rng.choice(w.ref_attrs[e])[0]]
+            if r < 0.81: return ['del', t]
             if r < 0.88:
                 if not w.m2m_attrs[e]: continue
                 name, te = rng.choice(w.m2m_attrs[e]); cands = w.alive(te)
@@ -401,6 +409,11 @@ class Run:
             o = w.get(op[1])
             if o is None: raise LookupError('stale target')
             o.val = op[2]
+        elif k == 'read':
+            o = w.get(op[1])
+            if o is None: raise LookupError('stale target')
+            self.before_query()          # the read may load the attribute (a query -> auto-flush)
+            getattr(o, op[2])
         elif k == 'del':
             o = w.get(op[1])
             if o is None: raise LookupError('stale target')
@@ -468,7 +481,7 @@ class Run:
         if not cyclic and err is not None:
             det = {'error': str(err)[:300], 'statements_so_far': trace}
             if self.strict and trace and trace[-1][0] == 'delete' and 'FOREIGN KEY' in str(err):
-                try: det['blocked_only_by_deleted_optional_referrers'] = w.blocking_rows_are_deleted_optionals(objs[trace[-1][1]])
+                try: det['blocked_only_by_rows_deleted_in_the_same_flush'] = w.blocking_rows_are_deleted_too(objs[trace[-1][1]])
                 except Exception as e2: det['classification_error'] = repr(e2)
             self.problems.append(('flush raised %s although the pending references can be ordered' % type(err).__name__, det))
         if cyclic and err is None:
@@ -487,7 +500,7 @@ class Run:
         bak = w.backup() if (self.all_explicit and not self.strict) else None
         with db_session:
             try:
-                n = self.rng.choice([1, 2, 3, 4, 5, 6, 8, 10]) if ops is None else len(ops)
+                n = self.rng.choice([1, 2, 3, 4, 5, 6, 8, 10, 14]) if ops is None else len(ops)
                 for i in range(n):
                     try:
                         op = self.gen_op(i) if ops is None else ops[i]
@@ -614,8 +627,26 @@ def check_records(ctx, runs):
             model = {'error': out.get('error', out.get('driver_error'))}
         if 'ok' in real: real = {'ok': canon_model(real['ok'])}
         ctx.count('model:' + ('ok' if 'ok' in model else str(model['error'])))
+        req = rec['request']; st = req['status']
         if 'ok' in model:
             ctx.count('model-writes:%d' % min(len(model['ok']), 12))
+            objw = [w_ for w_ in model['ok'] if w_[0] in ('insert', 'update', 'delete')]
+            qorder = [q for q in req['queue'] if q is not None]
+            if [w_[1] for w_ in objw] != [q for q in qorder if q in [w_[1] for w_ in objw]]:
+                ctx.count('branch:recursion-reordered-the-queue')        # a principal was saved before its own slot (`written` skip branch)
+        if None in req['queue']: ctx.count('branch:queue-with-holes')
+        ncre = sum(1 for x in st if x == 'created')
+        ctx.count('created-objects:%d' % min(ncre, 8))
+        e_cc = sum(1 for x, rs in enumerate(req['refs']) if st[x] == 'created' for t, _ in rs if st[t] == 'created')
+        e_mc = sum(1 for x, rs in enumerate(req['refs']) if st[x] == 'modified' for t, d in rs if d and st[t] == 'created')
+        e_self = sum(1 for x, rs in enumerate(req['refs']) if st[x] == 'created' for t, _ in rs if t == x)
+        if e_cc: ctx.count('branch:created->created edges')
+        if e_mc: ctx.count('branch:modified->created edge (UPDATE waits for INSERT)')
+        if e_self: ctx.count('branch:self-reference of a created object')
+        if any(st[x] == 'modified' and any(not d for _, d in rs) for x, rs in enumerate(req['refs'])): ctx.count('branch:modified object with a clean reference (filtered by wbits)')
+        if req['removed']: ctx.count('branch:unlink rows')
+        if req['added']: ctx.count('branch:link rows')
+        if 'chain' in model: ctx.count('cycle-chain-length:%d' % min(len(model['chain']), 6))
         if 'error' in real and real['error'] != 'UnresolvableCyclicDependency':
             # the backend refused a statement (reported by the oracle): the model must have predicted the statements up to it
             pt = canon_model(rec['partial_trace'] or [])
@@ -697,7 +728,7 @@ def report(ctx, spec, hist, strict, what, detail, shrunk=False):
         # history that Pony's own DDL (ON DELETE SET NULL / CASCADE) accepts
         st = (det or {}).get('statements_so_far') if isinstance(det, dict) else None
         if what.startswith('flush raised') and st and st[-1][0] == 'delete' and 'FOREIGN KEY' in str(det.get('error')) \
-                and det.get('blocked_only_by_deleted_optional_referrers') is True and not try_history(ctx, spec, hist, False):
+                and det.get('blocked_only_by_rows_deleted_in_the_same_flush') is True and not try_history(ctx, spec, hist, False):
             key = STRICT_DELETE_KEY
             ctx.count('strict:delete-refused')
     if key != STRICT_DELETE_KEY and not shrunk:
@@ -707,9 +738,24 @@ def report(ctx, spec, hist, strict, what, detail, shrunk=False):
         what = 'with the ON DELETE clauses removed from the schema: ' + what
     ctx.violation(what, {'spec': spec, 'history': hist, 'strict': strict}, observed=det, expected='flush succeeds / database unchanged', key=key)
 
+def run_corpus(ctx):
+    """minimised past failures and the inputs that caught the mutants: run first, with the full oracle"""
+    import glob, os
+    runs = []
+    for f in sorted(glob.glob(os.path.join(os.path.dirname(os.path.dirname(os.path.abspath(__file__))), 'corpus', 'C16', '*.json'))):
+        d = json.load(open(f))
+        r = Run(ctx, d['spec'], strict=bool(d.get('strict')), recorded=d['history']).run()
+        runs.append(r)
+        ctx.case({'corpus': os.path.basename(f)}, nontrivial=True, kind='corpus')
+        for what, detail in r.problems:
+            if what.startswith('infrastructure'): raise RuntimeError('%s: %r' % (what, detail))
+            report(ctx, d['spec'], d['history'], bool(d.get('strict')), what, detail, shrunk=True)
+    return runs
+
 def run(ctx):
     n = ctx.scale(400, 6000)
-    runs = explore(ctx, False, n)
+    runs = run_corpus(ctx)
+    runs += explore(ctx, False, n)
     runs += explore(ctx, True, ctx.scale(120, 2000))
     check_records(ctx, runs)
     check_fk_model(ctx, runs)
